@@ -90,6 +90,19 @@ def main(argv=None):
         discharged = len(obligations)
 
     # 4. exploration: Tie B + oracle search on the real code
+    # a wall-clock guard: an exploration that does not finish (real code that hangs on some input met outside the
+    # stage that looks for exactly that) ends as an infrastructure failure in bounded time, not as a hung check
+    import threading
+
+    budget = float(os.environ.get("VERIF_BUDGET_S", "1500" if args.tier != "thorough" else "10800"))
+
+    def _expired():
+        print(f"INFRA: exploration exceeded its wall-clock budget of {budget:.0f} s", flush=True)
+        os._exit(2)
+
+    guard = threading.Timer(budget, _expired)
+    guard.daemon = True
+    guard.start()
     res = fw.CheckResult()
     rng = random.Random(seed * 1000003 + sum(ord(c) for c in args.prop))
     deep = bool(proof_problems)
